@@ -96,7 +96,8 @@ Definition on_sub_deleted (s : sub) (st : vstate) : vstate := remove_subset (lay
 
 Inductive op :=
 | Append (d : Z) | Remove (d : Z) | NewGroup (g : Z) | RemoveGroup (g : Z)
-| AddData (d : Z) | RemoveData (d : Z) | AddSubset (s d g : Z) | SaveRestore.
+| AddData (d : Z) | RemoveData (d : Z) | AddSubset (s d g : Z) | SaveRestore
+| RemoveLayer (d : Z)     (* viewer.remove_layer(data): only the dataset's own layer artist goes, its subsets' layers stay *).
 
 Definition sub_known (sb : list sub) (s d g : Z) : bool :=
   existsb (fun x => (s_id x =? s) && (s_d x =? d) && (s_g x =? g)) sb.
@@ -128,8 +129,9 @@ Definition step (o : op) (st : vstate) : vstate * Z :=
   | AddData d => add_data d st
   | RemoveData d => (remove_data d st, 0)
   | AddSubset s d g =>
-      (* in the stated domain only: a current subset of a dataset the viewer shows *)
-      if has (LData d) (arts st) && sub_known (subs st) s d g then (add_subset_layer (LSub s d g) st, 0) else (st, 2)
+      (* in the stated domain only: a current subset of a dataset of the collection (the viewer need not show the dataset) *)
+      if zmem d (dc st) && sub_known (subs st) s d g then (add_subset_layer (LSub s d g) st, 0) else (st, 2)
+  | RemoveLayer d => (remove_subset (LData d) st, 0)      (* container.pop(layer) + the on_changed callback *)
   | SaveRestore =>
       (* datasets outside the collection are not part of the saved session *)
       (mkV (fixed st) (dc st) (groups st) (filter (fun s => zmem (s_d s) (dc st)) (subs st)) (next st) (arts st) (sls st), 0)
@@ -142,6 +144,7 @@ Definition ghost_step (o : op) (st : vstate) (given : list Z) : list Z :=
   | AddData d => if zmem d (dc st) && negb (zmem d given) then given ++ [d] else given
   | RemoveData d => zremove d given
   | Remove d => zremove d given
+  | RemoveLayer d => zremove d given
   | _ => given
   end.
 
@@ -469,6 +472,7 @@ Definition dec_op (t : tree) : op :=
   | T 5 [T d _] => AddData d
   | T 6 [T d _] => RemoveData d
   | T 7 [T d _; T g _; T k _] => AddSubset k d g      (* resolved against the state in trace_v *)
+  | T 9 [T d _] => RemoveLayer d
   | _ => SaveRestore
   end.
 
